@@ -99,6 +99,90 @@ where
     }
 }
 
+#[cfg(specs_verif)]
+impl<J> JoinParIter<J>
+where
+    J: ParJoin + Send,
+    J::Mask: Send + Sync,
+    J::Type: Send,
+    J::Value: Send + Sync,
+{
+    /// Verification hook: opens the join exactly as `drive_unindexed` does and
+    /// then walks the real `JoinProducer` under an externally supplied
+    /// split-decision function instead of rayon's bridge.
+    ///
+    /// `decide(path)` is asked once per producer, `path` being the sequence
+    /// of `0` (first half) / `1` (second half) taken from the root; `true`
+    /// means "call `split()`". `leaf(path, item)` receives every item folded
+    /// at the producer identified by `path`.
+    pub fn verif_drive(
+        self,
+        decide: &mut dyn FnMut(&[u8]) -> bool,
+        leaf: &mut dyn FnMut(&[u8], J::Type),
+    ) {
+        struct F<'f, T>(&'f mut dyn FnMut(&[u8], T), &'f [u8]);
+        impl<'f, T> Folder<T> for F<'f, T> {
+            type Result = ();
+
+            fn consume(self, item: T) -> Self {
+                (self.0)(self.1, item);
+                self
+            }
+
+            fn complete(self) {}
+
+            fn full(&self) -> bool {
+                false
+            }
+        }
+
+        fn walk<'a, J>(
+            p: JoinProducer<'a, J>,
+            path: &mut Vec<u8>,
+            decide: &mut dyn FnMut(&[u8]) -> bool,
+            leaf: &mut dyn FnMut(&[u8], J::Type),
+        ) where
+            J: ParJoin + Send,
+            J::Mask: Send + Sync + 'a,
+            J::Type: Send,
+            J::Value: Send + Sync + 'a,
+        {
+            if decide(path) {
+                let (first, second) = p.split();
+                match second {
+                    Some(second) => {
+                        path.push(0);
+                        walk(first, path, decide, leaf);
+                        path.pop();
+                        path.push(1);
+                        walk(second, path, decide, leaf);
+                        path.pop();
+                    }
+                    None => {
+                        // rayon folds the producer it got back.
+                        path.push(0);
+                        first.fold_with(F(leaf, path)).complete();
+                        path.pop();
+                    }
+                }
+            } else {
+                p.fold_with(F(leaf, path)).complete();
+            }
+        }
+
+        // SAFETY: same as in `drive_unindexed`.
+        let (keys, values) = unsafe { self.0.open() };
+        let producer = BitProducer((&keys).iter(), 3);
+        let mut path = Vec::new();
+        walk(
+            JoinProducer::<J>::new(producer, &values),
+            &mut path,
+            decide,
+            leaf,
+        );
+    }
+}
+
 struct JoinProducer<'a, J>
 where
     J: ParJoin + Send,
